@@ -22,8 +22,18 @@ later).  The driver executes them with real retrieve_cache-decorated handlers wh
 nC (how often a cache object was handed to a claimant in this registration) is part of the compared state
 (invariants ExactlyOnce: nC + nT <= 1, ClaimedOnce).  Spec constant ClaimFirst = FALSE is the control (peek, pop after
 the handler returned), classes()["PeekOverlay"] the corresponding replay control.
-Configurations: h2 (2 caches, every handler script, coroutine handlers), q2/n2 (2 caches) and h3/r3 (3 caches) are
-dumped and replayed edge by edge; q3/n3/n4 are model checked, s3/n4 sampled with TLC -simulate; ctl_* are the negative
+Several futures per request: fut[c] is the sequence of the states of the futures tied to cache c (registration order);
+FutExt(c, j) = somebody completes / cancels the j-th one while the request is outstanding; the time-out completes and
+shutdown() / a refused add() cancel every future that is still pending (spec operator Sweep; constant FutLoop = "break"
+is the control: the loop stops at the first future that is already done; classes()["FirstDoneStopsRC"] the replay control).
+Tear-down sequences: ShutdownTM = the inherited public TaskManager.shutdown_task_manager() called on the request cache
+(raises the shared _shutdown flag, cancels the time-out tasks, leaves identifiers and futures alone: st "stopped"),
+Shutdown = RequestCache.shutdown(), callable any number of times and after ShutdownTM; AfterShutdown is demanded from
+the first shutdown() call on (rcdown), AfterFlag from the moment the flag is up.  Constant ShutGuard = TRUE is the control
+(shutdown() returns at once when the flag is already up), classes()["GuardedShutdownRC"] the replay control.
+Configurations: h2 (2 caches, every handler script, coroutine handlers, task-manager teardown), f2 (2 caches with 2 and 3
+futures, one of them completed by somebody else, task-manager teardown; thorough also fx: any number of them), q2/n2
+(2 caches) and h3/r3 (3 caches) are dumped and replayed edge by edge; q3/n3/n4 are model checked, s3/n4 sampled with TLC -simulate; ctl_* are the negative
 controls.
 """
 from __future__ import annotations
@@ -132,9 +142,41 @@ def classes():
         def pop(self, prefix, number):
             return self._identifiers.pop(self._create_identifier(number, prefix))
 
+    class FirstDoneStopsRC(RequestCache):
+        """The time-out stops completing the tied futures at the first one that is already done (what the property
+        forbids: every future tied to the request is completed on time-out)."""
+
+        def _on_timeout(self, cache):
+            fs = cache._managed_futures
+            k = next((n for n, (f, _v) in enumerate(fs) if f.done()), len(fs))
+            cache._managed_futures = fs[:k]
+            try:
+                super()._on_timeout(cache)
+            finally:
+                cache._managed_futures = fs
+
+    class GuardedShutdownRC(RequestCache):
+        """shutdown() does nothing when the flag it shares with the task manager is already up (what the property
+        forbids: after shutdown nothing is registered and the tied futures are cancelled)."""
+
+        async def shutdown(self):
+            if self._shutdown:
+                return
+            await super().shutdown()
+
+    _CLS.update(FirstDoneStopsRC=FirstDoneStopsRC, GuardedShutdownRC=GuardedShutdownRC)
     _CLS.update(A=A, B=B, Base=Base, Overlay=make_overlay(retrieve_cache), PeekOverlay=make_overlay(peek_cache),
                 RequestCache=RequestCache, NoCancelRC=NoCancelRC)
     return _CLS
+
+
+def seq(v):
+    """A TLA+ sequence as a tuple (TLC prints some of them as functions)."""
+    if isinstance(v, (tuple, list)):
+        return tuple(v)
+    if isinstance(v, str):
+        raise MachineryError("sequence expected, got %r" % (v,))
+    return tuple(v[k] for k in sorted(v))
 
 
 def task_of(h):
@@ -167,14 +209,17 @@ class World:
         for cid in range(1, self.n + 1):
             c = k[cls[cid - 1]](self, cid, ident[cid - 1])   # built while nothing is registered: the constructor guard passes
             self.cache[cid] = c
-            if futk[cid - 1] != "none":
+            self.futs[cid] = []
+            for j, kind in enumerate(seq(futk[cid - 1])):
                 f = asyncio.Future(loop=loop)
-                self.futs[cid] = f
-                if futk[cid - 1] == "exc":
-                    self.exc[cid] = RuntimeError("timeout of %d" % cid)
-                    c.register_future(f, self.exc[cid])
+                self.futs[cid].append(f)
+                if kind == "exc":
+                    self.exc[cid, j] = RuntimeError("timeout of %d/%d" % (cid, j))
+                    c.register_future(f, self.exc[cid, j])
+                elif kind == "value":
+                    c.register_future(f, ("timeout-value", cid, j))
                 else:
-                    c.register_future(f, ("timeout-value", cid))
+                    raise MachineryError("unknown future kind %r" % (kind,))
         self.owner = {}                    # task -> cid
         self.tasks = {cid: [] for cid in self.cache}
         self.timer = {}                    # task -> TimerHandle of its sleep()
@@ -441,6 +486,16 @@ class World:
             raise MachineryError("shutdown(): expected one new handle")
         self._run(new[0])                  # the synchronous part of shutdown()
 
+    def shutdown_tm(self):
+        """The inherited TaskManager.shutdown_task_manager(), called on the request cache: its synchronous part."""
+        before = {id(h) for h in self.loop._ready}
+        t = self.loop.call(asyncio.ensure_future, self.rc.shutdown_task_manager())
+        self.bg.append(t)
+        new = [h for h in self.loop._ready if id(h) not in before]
+        if len(new) != 1:
+            raise MachineryError("shutdown_task_manager(): expected one new handle")
+        self._run(new[0])
+
     def pass_enter(self, t, f):
         k = classes()
         self.cm = self.rc.passthrough(k["A"], timeout=float(t)) if f == "A" else self.rc.passthrough(timeout=float(t))
@@ -450,31 +505,35 @@ class World:
         self.cm.__exit__(None, None, None)
         self.cm = None
 
-    def fut_ext(self, cid):
-        f = self.futs[cid]
-        if cid % 2:
+    def fut_ext(self, cid, j):
+        """Somebody else cancels / completes the j-th (0-based) future tied to the cache."""
+        if j >= len(self.futs[cid]) or self.futs[cid][j].done():
+            raise Divergence("no-pending-future", "future %d of cache %d is not pending" % (j + 1, cid))
+        f = self.futs[cid][j]
+        if (cid + j) % 2:
             f.cancel()
-            self.ext[cid] = "cancel"
+            self.ext[cid, j] = "cancel"
         else:
             f.set_result("EXT")
-            self.ext[cid] = "result"
+            self.ext[cid, j] = "result"
 
     # ---------------------------------------------------------------- observation
     def fut_state(self, cid):
-        f = self.futs.get(cid)
-        if f is None:
-            return "none"
+        return tuple(self.fut_state1(cid, j) for j in range(len(self.futs[cid])))
+
+    def fut_state1(self, cid, j):
+        f = self.futs[cid][j]
         if not f.done():
             return "pending"
-        if cid in self.ext:
-            ok = f.cancelled() if self.ext[cid] == "cancel" else (not f.cancelled() and f.exception() is None
-                                                                  and f.result() == "EXT")
+        if (cid, j) in self.ext:
+            ok = f.cancelled() if self.ext[cid, j] == "cancel" else (not f.cancelled() and f.exception() is None
+                                                                     and f.result() == "EXT")
             return "ext" if ok else "ext-overwritten"
         if f.cancelled():
             return "cancelled"
         if f.exception() is not None:
-            return "exception" if f.exception() is self.exc.get(cid) else "wrong-exception"
-        return "result" if f.result() == ("timeout-value", cid) else "wrong-result"
+            return "exception" if f.exception() is self.exc.get((cid, j)) else "wrong-exception"
+        return "result" if f.result() == ("timeout-value", cid, j) else "wrong-result"
 
     def project(self):
         table = []
@@ -515,9 +574,10 @@ class World:
         if self.co is not None:
             self.co[0].close()
             self.co = None
-        for f in self.futs.values():
-            if f.done() and not f.cancelled():
-                f.exception()
+        for fs in self.futs.values():
+            for f in fs:
+                if f.done() and not f.cancelled():
+                    f.exception()
         known = list(self.owner) + self.bg + list(self.rc.get_tasks()) + [self.checker]
         for t in known:
             if t is not None and not t.done():
@@ -550,19 +610,22 @@ def compare(spec, proj):
             d["nT[%d]" % (idx + 1)] = {"spec": spec["nT"][idx], "impl": proj["nT"][idx]}
         if "nC" in spec and spec["nC"][idx] != proj["nC"][idx]:
             d["nC[%d]" % (idx + 1)] = {"spec": spec["nC"][idx], "impl": proj["nC"][idx]}
-        if spec["fut"][idx] != proj["fut"][idx]:
-            d["fut[%d]" % (idx + 1)] = {"spec": spec["fut"][idx], "impl": proj["fut"][idx]}
+        if seq(spec["fut"][idx]) != proj["fut"][idx]:
+            d["fut[%d]" % (idx + 1)] = {"spec": list(seq(spec["fut"][idx])), "impl": list(proj["fut"][idx])}
     return d
 
 
 def expected_runout(spec):
-    st, nT, fut, futk = spec["st"], list(spec["nT"]), list(spec["fut"]), spec["futk"]
+    """Only the outstanding requests still have a time-out ahead (requests frozen by the task manager teardown stay)."""
+    st, nT, fut, futk = spec["st"], list(spec["nT"]), [list(seq(f)) for f in spec["fut"]], spec["futk"]
     for i, s in enumerate(st):
         if s == "outstanding":
             nT[i] += 1
-            if fut[i] == "pending":
-                fut[i] = "exception" if futk[i] == "exc" else "result"
-    return {"table": tuple(0 for _ in spec["table"]), "st": st, "nT": tuple(nT), "fut": tuple(fut), "nC": spec["nC"]}
+            for j, kind in enumerate(seq(futk[i])):
+                if fut[i][j] == "pending":
+                    fut[i][j] = "exception" if kind == "exc" else "result"
+    table = tuple(0 if c and st[c - 1] == "outstanding" else c for c in spec["table"])
+    return {"table": table, "st": st, "nT": tuple(nT), "fut": tuple(tuple(f) for f in fut), "nC": spec["nC"]}
 
 
 def apply_action(w, name, args, pre, post, rng):
@@ -645,12 +708,14 @@ def apply_action(w, name, args, pre, post, rng):
         w.clear()
     elif name == "Shutdown":
         w.shutdown()
+    elif name == "ShutdownTM":
+        w.shutdown_tm()
     elif name == "PassEnter":
         w.pass_enter(args[0], args[1])
     elif name == "PassExit":
         w.pass_exit()
     elif name == "FutExt":
-        w.fut_ext(args[0])
+        w.fut_ext(args[0], args[1] - 1)
     else:
         raise MachineryError("unknown action " + name)
     return None
@@ -850,7 +915,10 @@ ALL_ACTIONS = {"Add", "ReAdd", "Pop", "Respond", "TaskStart", "Tick", "TimerFire
 
 
 H2_ACTIONS = {"Add", "Pop", "Respond", "RespondCo", "HandlerBody", "TaskStart", "Tick", "TimerFire", "TaskWake", "Reap",
-              "Clear", "Shutdown"}
+              "Clear", "Shutdown", "ShutdownTM"}
+F2_ACTIONS = {"Add", "Pop", "TaskStart", "Tick", "TimerFire", "TaskWake", "Reap", "Clear", "Shutdown", "ShutdownTM", "FutExt"}
+EXPECT = {"h2": H2_ACTIONS, "h3": H2_ACTIONS, "f2": F2_ACTIONS, "q2": ALL_ACTIONS - {"FutExt"},
+          "r3": ALL_ACTIONS - {"FutExt"}, "n2": ALL_ACTIONS, "fx": F2_ACTIONS | {"Respond"}}
 
 
 def check_coverage(r, cfg, expect=None):
@@ -867,20 +935,32 @@ T_NI = 10
 T_DELAYS = (1, 2, 3, 4)
 
 
-def record_trace(loop, rng, n, readd=True):
+def record_trace(loop, rng, n, readd=True, teardown=1.0):
+    """teardown: factor on the probabilities of shutdown()/shutdown_task_manager() and of outside future completions."""
     ident = [rng.randint(1, T_NI) for _ in range(n)]
-    futk = [rng.choice(["none", "value", "exc"]) for _ in range(n)]
+    futk = [[rng.choice(["value", "exc"]) for _ in range(rng.choice((0, 1, 1, 2, 3)))] for _ in range(n)]
     cls = [rng.choice(["A", "B"]) for _ in range(n)]
     w = World(loop, ident, futk, cls, T_NI)
     events = []
     ended = {}          # cid -> "claimed"/"timedout" as seen from outside (return values / callbacks)
-    state = {"shutdown": False}
+    state = {"shutdown": 0, "shutdowntm": 0, "flag": False}
+    p_ext = 0.915 + min(0.02, 0.01 * (teardown - 1.0))
+    p_down = min(0.012, 0.006 * teardown)
+
+    def teardown_step(kind):
+        if kind == "shutdown":
+            w.shutdown()
+        else:
+            w.shutdown_tm()
+        state[kind] += 1
+        state["flag"] = True
+        log({"op": kind})
 
     def log(ev):
         w.background()
         w.check_errors()
         p = w.project()
-        ev.update(table=list(p["table"]), nT=list(p["nT"]), fut=list(p["fut"]), nC=list(p["nC"]))
+        ev.update(table=list(p["table"]), nT=list(p["nT"]), fut=[list(f) for f in p["fut"]], nC=list(p["nC"]))
         events.append(ev)
 
     def nested_choice():
@@ -997,7 +1077,9 @@ def record_trace(loop, rng, n, readd=True):
     try:
         for _ in range(budget):
             x = rng.random()
-            if x < 0.22:
+            if state["shutdowntm"] and not state["shutdown"] and x < 0.1:
+                teardown_step("shutdown")      # the owner's shutdown() follows the generic task manager teardown
+            elif x < 0.22:
                 if len(w.added) >= n:
                     if not run_head() and not fire_due():
                         w.tick()
@@ -1033,12 +1115,13 @@ def record_trace(loop, rng, n, readd=True):
                 else:
                     w.pass_exit()
                     log({"op": "pexit"})
-            elif x < 0.915:
-                cands = [c for c in w.futs if not w.futs[c].done() and w.rc.get("p", ident[c - 1]) is w.cache[c]]
+            elif x < p_ext:
+                cands = [(c, j) for c in w.futs for j, f in enumerate(w.futs[c])
+                         if not f.done() and not state["flag"] and w.rc.get("p", ident[c - 1]) is w.cache[c]]
                 if cands:
-                    c = rng.choice(cands)
-                    w.fut_ext(c)
-                    log({"op": "futext", "c": c})
+                    c, j = rng.choice(cands)
+                    w.fut_ext(c, j)
+                    log({"op": "futext", "c": c, "j": j + 1})
             elif x < 0.955 and readd:
                 # the same cache object is registered again after its request ended (claimed or timed out)
                 cands = [c for c in ended if all(t.done() or t.cancelling() for t in w.tasks[c])
@@ -1054,12 +1137,16 @@ def record_trace(loop, rng, n, readd=True):
             elif x < 0.963:
                 w.clear()
                 log({"op": "clear"})
-            elif x < 0.967 and not state["shutdown"] and len(events) > budget // 3:
-                w.shutdown()
-                state["shutdown"] = True
-                log({"op": "shutdown"})
+            elif x < 0.963 + p_down and len(events) > budget // 3:
+                # tear-down: shutdown() (also a second time), or the task manager half alone (generic TaskManager
+                # teardown; the owner's shutdown() follows later - or never)
+                kind = "shutdowntm" if rng.random() < 0.4 else "shutdown"
+                if state[kind] < 2:
+                    teardown_step(kind)
             elif x >= 0.975:
                 response()
+        if state["shutdowntm"] and not state["shutdown"] and rng.random() < 0.7:
+            teardown_step("shutdown")
         if w.co is not None:
             body()
         # run-out, logged: every step must still be a step of the specification
@@ -1191,21 +1278,56 @@ def corrupt(trace, how):
                         break
                     e2["table"][e["i"] - 1] = e["res"]
                 return t
+    elif how == "later-future-pending":
+        # one of the futures tied to a request was completed by somebody else; the time-out then leaves a future
+        # registered after it pending
+        for k, e in enumerate(evs):
+            if e["op"] == "step" and k and e["nT"][e["c"] - 1] == evs[k - 1]["nT"][e["c"] - 1] + 1:
+                f = e["fut"][e["c"] - 1]
+                for j2 in range(1, len(f)):
+                    if f[j2] in ("result", "exception") and "ext" in f[:j2]:
+                        for e2 in evs[k:]:
+                            e2["fut"][e["c"] - 1][j2] = "pending"
+                        return t
+    elif how == "teardown-then-shutdown-keeps":
+        # the task manager half was torn down first; the shutdown() that follows leaves the requests registered and
+        # their futures pending
+        for k, e in enumerate(evs):
+            if (e["op"] == "shutdown" and k and any(evs[k - 1]["table"])
+                    and any(e2["op"] == "shutdowntm" for e2 in evs[:k])):
+                e["table"] = list(evs[k - 1]["table"])
+                e["fut"] = json.loads(json.dumps(evs[k - 1]["fut"]))
+                return t
     raise MachineryError("cannot build corrupted trace %r" % how)
 
 
-CORRUPTIONS = ("late-timeout", "drop-pop", "response-after-timeout", "claimed-stays", "double-claim", "claim-at-body")
+CORRUPTIONS = ("late-timeout", "drop-pop", "response-after-timeout", "claimed-stays", "double-claim", "claim-at-body",
+               "later-future-pending", "teardown-then-shutdown-keeps")
 
 
 def corruptible_trace(loop, seed):
-    """A recorded execution of 12 caches on which every corruption can be built."""
-    for k in range(1, 40):
-        base = record_trace(loop, random.Random(seed + k), 12)
+    """Recorded executions of 12 caches (tear-downs and outside future completions twice as likely) on which the
+    corruptions can be built -> (a base trace, [(how, corrupted trace)], [corruptions that could not be built])."""
+    todo = list(CORRUPTIONS)
+    out = {}
+    first = None
+    for k in range(1, 200):
         try:
-            return base, [(how, corrupt(base, how)) for how in CORRUPTIONS]
-        except MachineryError:
-            continue
-    raise MachineryError("no recorded execution contains the events the trace controls need")
+            base = record_trace(loop, random.Random(seed + k), 12, teardown=2.0)
+        except Divergence:
+            continue           # the recordings that are judged report this
+        first = first or base
+        for how in list(todo):
+            try:
+                out[how] = corrupt(base, how)
+                todo.remove(how)
+            except MachineryError:
+                continue
+        if not todo:
+            break
+    # a corruption that cannot be built (the real code never showed the events it needs) is judged at the end: on a
+    # tree that violates the property this is to be expected, the violations found are the verdict then
+    return first, [(how, out[how]) for how in CORRUPTIONS if how in out], todo
 
 
 # ---------------------------------------------------------------------------------------------------
@@ -1249,8 +1371,9 @@ def run(tier, seed, replay=None):
     ctx.cov["rule"] = ("TLC explores every interleaving of add / pop (direct and via a retrieve_cache handler) / response "
                        "dispatched to a handler whose body fails or re-enters the cache (pop, re-entrant response, add; "
                        "plain and coroutine handlers) / task start / "
-                       "timer expiry / task wake-up / done callbacks / passthrough / clear / shutdown / external future "
-                       "completion / re-registration, incl. pops and adds from inside on_timeout, for <= 4 caches; every "
+                       "timer expiry / task wake-up / done callbacks / passthrough / clear / shutdown (repeated, and after "
+                       "the inherited shutdown_task_manager()) / several futures tied to one request, any of them "
+                       "completed from outside / re-registration, incl. pops and adds from inside on_timeout, for <= 4 caches; every "
                        "transition of the dumped graph (and sampled behaviours of the larger configurations) is executed "
                        "on the real RequestCache under a single-step event loop and the observable outcome compared with "
                        "the TLC state; larger populations: recorded executions validated by TLC. non-trivial = distinct "
@@ -1276,18 +1399,24 @@ def run(tier, seed, replay=None):
 
         # ---- every TLC job is started now (the longest first); the replays below consume them as they finish
         if quick:
-            checks = [("q3", mc("q3", workers=8), ALL_ACTIONS - {"FutExt"})]
-            graphs = [("q2", pool.submit(dump_graph, "RequestCache_q2.cfg"), None)]
-        j_ctl = pool.submit(dump_graph, "RequestCache_ctl_small.cfg")
+            # q3 = q2 with a third cache: that every action is taken is established on the dumped q2 graph (same
+            # constants otherwise), TLC's per-action coverage (+50% CPU on the longest job) is not collected again
+            checks = [("q3", mc("q3", workers=8, coverage=False), None)]
+        j_h2 = pool.submit(dump_graph, "RequestCache_h2.cfg")      # also the graph the replay controls walk
+        j_f2 = pool.submit(dump_graph, "RequestCache_f2.cfg")      # ... and the controls on futures / tear-down
+        if quick:
+            graphs = [("h2", j_h2, None), ("f2", j_f2, None), ("q2", pool.submit(dump_graph, "RequestCache_q2.cfg"), None)]
         j_pin = mc("ctl_pinned", coverage=False, workers=2)
         j_nlc = mc("ctl_nolatecancel", coverage=False, workers=2)
         j_peek = mc("ctl_peek", coverage=False, workers=2)
+        j_tear = mc("ctl_teardown", coverage=False, workers=2, continue_=True)
         if quick:
-            graphs.insert(0, ("h2", pool.submit(dump_graph, "RequestCache_h2.cfg"), None))
             sims = [("s3", pool.submit(simulate, "RequestCache_s3.cfg", 1600, 40, seed + 7))]
             ntr = 40
         else:
-            graphs = [("h2", pool.submit(dump_graph, "RequestCache_h2.cfg"), None),
+            graphs = [("h2", j_h2, None),
+                      ("f2", j_f2, None),
+                      ("fx", pool.submit(dump_graph, "RequestCache_fx.cfg"), None),
                       ("h3", pool.submit(dump_graph, "RequestCache_h3.cfg"), None),
                       ("n2", pool.submit(dump_graph, "RequestCache_n2.cfg"), None),
                       ("r3", pool.submit(dump_graph, "RequestCache_r3.cfg"), 1000000)]
@@ -1303,7 +1432,7 @@ def run(tier, seed, replay=None):
                 for k in range(0, len(traces), 100)]
         base = None
         if not ctx.violations:
-            base, bad_traces = corruptible_trace(loop, seed)
+            base, bad_traces, unbuilt = corruptible_trace(loop, seed)
             j_bad = pool.submit(tlc_traces, [t for _how, t in bad_traces], True)    # one TLC run judges them all
 
         # ---- negative controls on the specification
@@ -1312,21 +1441,33 @@ def run(tier, seed, replay=None):
         ctx.control("spec in which cancelling a fired-but-not-run task has no effect violates NoTimeoutAfterClaim",
                     j_nlc.result().violated == "NoTimeoutAfterClaim")
         # ---- replay control: a RequestCache whose pop() does not cancel the time-out must be flagged
-        bad = replay_graph(ctx, loop, j_ctl.result(), "RequestCache_ctl_small.cfg", 2, "ctl", 20000, random.Random(seed),
+        bad = replay_graph(ctx, loop, j_h2.result(), "RequestCache_h2.cfg", 2, "ctl", 20000, random.Random(seed),
                            rc_class=classes()["NoCancelRC"], record=False)
         ctx.control("replay flags a RequestCache whose pop() leaves the time-out task running", bool(bad))
         ctx.control("spec in which retrieve_cache releases the identifier only after the handler returned (never when "
                     "it raised) violates NoTimeoutAfterClaim", j_peek.result().violated == "NoTimeoutAfterClaim")
-        bad = replay_graph(ctx, loop, j_ctl.result(), "RequestCache_ctl_small.cfg", 2, "ctl", 20000, random.Random(seed),
+        bad = replay_graph(ctx, loop, j_h2.result(), "RequestCache_h2.cfg", 2, "ctl", 20000, random.Random(seed),
                            overlay_class=classes()["PeekOverlay"], record=False)
         ctx.control("replay flags a matching helper that claims the cache only after the handler body has run", bool(bad))
+        # ---- several futures per request / tear-down sequences
+        broken = set(re.findall(r"Invariant (\S+) is violated", j_tear.result().output))
+        ctx.control("spec in which the loop over the tied futures stops at the first one that is already done violates "
+                    "FuturesCompletedOnTimeout", "FuturesCompletedOnTimeout" in broken)
+        ctx.control("spec in which shutdown() returns at once when the flag is already up (task manager torn down first) "
+                    "violates NothingRegisteredAfterShutdown", "NothingRegisteredAfterShutdown" in broken)
+        bad = replay_graph(ctx, loop, j_f2.result(), "RequestCache_f2.cfg", 2, "ctl", 40000, random.Random(seed),
+                           rc_class=classes()["FirstDoneStopsRC"], record=False)
+        ctx.control("replay flags a RequestCache whose time-out stops completing the tied futures at the first done one",
+                    bool(bad) and "fut" in bad[0][0])
+        bad = replay_graph(ctx, loop, j_f2.result(), "RequestCache_f2.cfg", 2, "ctl", 40000, random.Random(seed),
+                           rc_class=classes()["GuardedShutdownRC"], record=False)
+        ctx.control("replay flags a RequestCache whose shutdown() does nothing after shutdown_task_manager()", bool(bad))
 
         # ---- replay of the state graphs and of simulated behaviours
         found = []
         for tag, job, max_ops in graphs:
             dumped = job.result()
-            check_coverage(dumped[0], tag, H2_ACTIONS if tag in ("h2", "h3") else
-                           (ALL_ACTIONS - {"FutExt"}) if tag in ("q2", "r3") else ALL_ACTIONS)
+            check_coverage(dumped[0], tag, EXPECT[tag])
             if not found:
                 found += replay_graph(ctx, loop, dumped, "RequestCache_%s.cfg" % tag, 2, tag, max_ops, rng)
         for tag, job in sims:
@@ -1357,6 +1498,8 @@ def run(tier, seed, replay=None):
             rejected = rejected_traces(j_bad.result())
             for k, (how, _t) in enumerate(bad_traces):
                 ctx.control("trace corrupted by '%s' is rejected" % how, (k + 1) in rejected)
+            if unbuilt:
+                raise MachineryError("no recorded execution contains the events the trace controls need: %s" % unbuilt)
     finally:
         pool.shutdown(wait=True, cancel_futures=True)
         asyncio.set_event_loop(None)
